@@ -202,7 +202,8 @@ def run_case(case):
         phA, phB = obsA.rb(wA), obsB.rb(wB)
         if not C.finite([a[1] for a in atA], [a[1] for a in atB], [fA, fB]) or np.max(np.abs(phA["tc"] - phB["tc"])) > 1e-9:
             continue
-        if max([abs(a[1]) for a in atA] + [abs(a[1]) for a in atB] + [abs(fA)]) > 1e4:
+        if max([abs(a[1]) for a in atA] + [abs(a[1]) for a in atB] + [abs(fA)]) > 1e4 or not C.phys_ok(phA, 1e4) \
+                or not C.phys_ok(phB, 1e4):
             continue       # badly conditioned point (huge expression values): relative comparison not meaningful
         res["counters"]["transported_points"] += 1
         res["evals"] += 1
